@@ -83,6 +83,9 @@ var goEnv = []string{"GOFLAGS=-mod=mod", "GOPROXY=off", "GOSUMDB=off", "GOTOOLCH
 // on PATH (the stand-in protoc lives there: goa's gRPC generator shells out to `protoc`).
 func env() []string {
 	e := append(os.Environ(), goEnv...)
+	// the pb packages of all designs of a family are linked into one driver: designs reuse
+	// protocol buffer names (messages keep their own descriptors)
+	e = append(e, "GOLANG_PROTOBUF_REGISTRATION_CONFLICT=ignore")
 	return append(e, "PATH="+filepath.Join(core.Root(), "bin", "tools")+string(os.PathListSeparator)+os.Getenv("PATH"))
 }
 
